@@ -1,9 +1,13 @@
 """Which contract modules carry obligations for which property."""
-_CODECS = ["contracts.at4_ctrl_status"]
+_CODECS = ["contracts.at4_ctrl_status", "contracts.at5_ext"]
+_SOCK = ["contracts.sock_queue"]
 MODULES = {
+    "C01": _SOCK,
+    "C02": _SOCK,
     "C03": ["contracts.c06_crc"] + _CODECS,
     "C04": _CODECS,
     "C05": _CODECS,
     "C06": ["contracts.c06_crc"],
+    "C16": _SOCK,
     "C17": _CODECS,
 }
